@@ -129,7 +129,7 @@ def model_line(kind, rec, is_bs=False, n_odes=0, fuel=None):
             tp, _, dldp = beats[k - 1][0], beats[k - 1][1], beats[k - 1][2]
             tn, dtn, dldn = beats[k][0], beats[k][1], beats[k][2]
             acc = (d2h(tn) != d2h(tp)) or (d2h(dldn) != d2h(dldp))
-            orc.append("%d:%s" % (1 if acc else 0, d2h(dtn)))
+            orc.append("%d:%s:%s" % (1 if acc else 0, d2h(dldn), d2h(dtn)))
     toks.append(str(len(orc)))
     toks += orc
     return " ".join(toks)
@@ -145,11 +145,21 @@ def expected_answer(rec):
 
 
 def parse_answer(line):
+    """-> (tokens comparable with expected_answer, syncs, [dt0 of every step])"""
     tk = line.split()
     if len(tk) < 8:
         return None
-    # outcome t dt dld steps status syncs nbeats beats...
-    return [tk[0], tk[1], tk[2], tk[3], tk[4], tk[5], tk[7]] + tk[8:], int(tk[6])
+    # outcome t dt dld steps status syncs nbeats (dt0 t1 dt1 dld1 st)*
+    nb = int(tk[7])
+    if len(tk) != 8 + 5 * nb:
+        return None
+    out = [tk[0], tk[1], tk[2], tk[3], tk[4], tk[5], tk[7]]
+    dt0s = []
+    for i in range(nb):
+        b = tk[8 + 5 * i: 13 + 5 * i]
+        dt0s.append(b[0])
+        out += b[1:]
+    return out, int(tk[6]), dt0s
 
 
 # ----------------------------------------------------------------------------- generators
@@ -191,3 +201,548 @@ def partition(rng, t0, tmax, n):
         return [tmax]
     fr = sorted(rng.uniform() for _ in range(n - 1))
     return [t0 + f * (tmax - t0) for f in fr] + [tmax]
+
+
+# ----------------------------------------------------------------------------- search oracles (real code only)
+def state_bytes(sim):
+    out = [d2h(sim.t)]
+    for i in range(sim.N):
+        p = sim.particles[i]
+        out += [d2h(v) for v in (p.m, p.x, p.y, p.z, p.vx, p.vy, p.vz)]
+    return out
+
+
+def exact_steps(t0, dt, tmax):
+    """x = |tmax - t0| / |dt| exactly"""
+    return abs(Fraction(tmax) - Fraction(t0)) / abs(Fraction(dt))
+
+
+def ceil_frac(x):
+    return -((-x.numerator) // x.denominator)
+
+
+def check_contract(c, integ, rec, t0dt, fails, worst):
+    """the time / step-size clauses of the property on one recorded real call.  t0dt = (|dt| the user set)."""
+    t0, dt_pre, _, _, steps0 = rec["pre"]
+    t1, dt1, _, status, steps1 = rec["post"]
+    tmax, exact = rec["tmax"], rec["exact"]
+    beats = rec["beats"]
+    info = dict(integrator=integ, t0=t0, dt=dt_pre, tmax=tmax, exact_finish_time=exact, t_end=t1, dt_end=dt1,
+                steps=steps1 - steps0, status=status)
+    if rec["capped"] or rec["ret"] != 0 or tmax == math.inf:
+        return
+    fixed = KIND[integ] != "adaptive"
+    if tmax == t0:
+        if steps1 != steps0 or d2h(t1) != d2h(t0) or d2h(dt1) != d2h(dt_pre):
+            fails.append(("noop", "integrate(t) with t == sim.t is not a no-op", info))
+        return
+    sg = 1.0 if tmax > t0 else -1.0
+    # never against the direction of integration
+    ts = [b[0] for b in beats]
+    for a, b in zip(ts, ts[1:]):
+        if (b - a) * sg < 0:
+            fails.append(("time-backwards", "time moved against the direction of integration", dict(info, t_a=a, t_b=b)))
+            break
+    if exact == 1:
+        tol = 1e-12 * abs(tmax) if tmax != 0 else 1e-12
+        err = abs(t1 - tmax)
+        worst["exact_finish_rel_err"] = max(worst.get("exact_finish_rel_err", 0.0), err / (abs(tmax) if tmax != 0 else 1.0))
+        if not err <= tol:
+            fails.append(("exact-finish", "exact_finish_time=1 did not end within 1e-12 of tmax", info))
+    else:
+        over = (t1 - tmax) * sg
+        if not over >= 0:
+            fails.append(("undershoot", "exact_finish_time=0 ended before tmax", info))
+        if fixed and not over < abs(t0dt) * (1 + 1e-9) + 4 * math.ulp(max(abs(t0), abs(tmax))) * max(1, steps1 - steps0):
+            fails.append(("overshoot", "exact_finish_time=0 overshot tmax by a step or more", dict(info, overshoot=over)))
+    # step size restored: sign always; magnitude for fixed step
+    if math.copysign(1.0, dt1) != sg:
+        fails.append(("dt-sign", "dt does not point in the direction of the integration afterwards", info))
+    if fixed:
+        if d2h(abs(dt1)) != d2h(abs(t0dt)):
+            fails.append(("dt-restore", "fixed-step integrator: |dt| after integrate differs from the user's", info))
+    else:
+        # adaptive: dt must be a full step of the integrator, not the shrunk last step
+        if exact == 1 and len(beats) > 2:
+            full = [abs(b[2]) for b in beats[1:-1] if b[2] != 0]
+            if full and not abs(dt1) >= 0.2 * min(full[-3:]):
+                fails.append(("dt-restore-adaptive", "adaptive integrator: dt left shrunk after exact finish", dict(info, recent_full=full[-3:])))
+    # number of steps of a fixed-step integrator
+    if fixed:
+        n = steps1 - steps0
+        x = exact_steps(t0, t0dt, tmax)
+        cx = ceil_frac(x)
+        T = max(abs(t0), abs(tmax))
+        noise = Fraction(math.ulp(T)) * (cx + 2) / abs(Fraction(t0dt))          # accumulated rounding of t, in steps
+        near_int = min(x - (x.numerator // x.denominator), Fraction(ceil_frac(x)) - x)
+        amb = near_int <= noise + Fraction(1, 10 ** 12) * Fraction(T) / abs(Fraction(t0dt)) if T > 0 else near_int == 0
+        ok = (n == cx) or (amb and abs(n - cx) <= 1) or (amb and x == cx and n == cx + 1)
+        worst["step_count_ambiguous"] = worst.get("step_count_ambiguous", 0) + (1 if amb else 0)
+        if n == cx + 1 and exact == 1 and len(beats) >= 2:
+            extra = abs(beats[-1][0] - beats[-2][0])
+            if not extra <= max(1e-12 * abs(tmax), 4 * math.ulp(T)):
+                ok = False
+        if not ok:
+            fails.append(("step-count", "number of steps is not the one implied by the step size", dict(info, expected=cx, x=float(x))))
+
+
+# ----------------------------------------------------------------------------- exit-condition scenes (straight-line particles)
+def cond_fn(maxd, mind, radii):
+    """independent re-evaluation of the exit conditions from the particle arrays of the sim a heartbeat sees
+    (same association order as C, so that exact ties fall on the same side)"""
+    def f(s):
+        n = s.N - s.N_var
+        ps = [(s.particles[i].x, s.particles[i].y, s.particles[i].z, s.particles[i].vx, s.particles[i].vy, s.particles[i].vz,
+               s.particles[i].r) for i in range(n)]
+        mask = 0
+        if maxd:
+            if any(p[0] * p[0] + p[1] * p[1] + p[2] * p[2] > maxd * maxd for p in ps):
+                mask |= F_ESC
+        for i in range(n):
+            for j in range(i):
+                dx, dy, dz = ps[i][0] - ps[j][0], ps[i][1] - ps[j][1], ps[i][2] - ps[j][2]
+                d2 = dx * dx + dy * dy + dz * dz
+                if mind and d2 < mind * mind:
+                    mask |= F_ENC
+                if radii:
+                    sr = ps[i][6] + ps[j][6]
+                    dvx, dvy, dvz = ps[i][3] - ps[j][3], ps[i][4] - ps[j][4], ps[i][5] - ps[j][5]
+                    if not d2 > sr * sr and not dvx * dx + dvy * dy + dvz * dz > 0:
+                        mask |= F_COLL
+        return mask
+    return f
+
+
+def make_scene(H, rng, integ):
+    """non-gravitating particles on straight lines; returns (sim, conds, description).  Events happen after a few steps."""
+    dt = rng.choice([0.1, 0.25, 0.05, rng.uniform(0.02, 0.5)])
+    sim = H.make_sim(integ, 0.0, dt, rng, physics="free")
+    kind = rng.choice(["escape", "encounter", "collision", "escape+encounter", "collision+escape", "collision+encounter", "none"])
+    maxd = mind = 0.0
+    radii = False
+    v = rng.uniform(0.5, 2.0)
+    sim.add(m=0.0, x=0.0, y=0.0, z=0.0)                      # anchor at the origin
+    if "escape" in kind:
+        maxd = rng.uniform(1.0, 3.0)
+        sim.add(m=0.0, x=rng.uniform(0, 0.5), y=0.3, vx=v)     # leaves the sphere
+    if "encounter" in kind:
+        mind = rng.uniform(0.05, 0.3)
+        sim.add(m=0.0, x=-rng.uniform(1.0, 2.0), y=0.0, z=0.01, vx=v)   # runs into the anchor
+    if "collision" in kind:
+        radii = True
+        sim.collision = "direct"
+        sim.collision_resolve = "halt"
+        sim.particles[0].r = rng.uniform(0.05, 0.2)
+        sim.add(m=0.0, x=0.0, y=-rng.uniform(1.0, 2.0), vy=v, r=rng.uniform(0.05, 0.2))
+    if kind == "none":
+        sim.add(m=0.0, x=1.0, vx=0.1)
+    sim.exit_max_distance = maxd
+    sim.exit_min_distance = mind
+    return sim, cond_fn(maxd, mind, radii), kind
+
+
+def first_firing(rec, is_bs=False):
+    """(boundary index, status by the code's evaluation order) of the first boundary whose recomputed flags fire.
+    N == 0 does not end a BS integration that has user/N-body ODEs registered (rebound.c:718-727)."""
+    for k, (mask, n) in enumerate(rec["flags"]):
+        m = mask if k > 0 else (mask & ~(F_COLL | F_SIGINT))
+        st = None
+        if m & F_COLL: st = 7
+        if m & F_USER: st = 5
+        if m & F_ESC: st = 4
+        if m & F_ENC: st = 3
+        if m & F_SIGINT: st = 6
+        if m & F_ERR: st = 1
+        if n == 0 and not (is_bs and rec["n_odes"] > 0): st = 2
+        if st is not None:
+            return k, st
+    return None, None
+
+
+# ----------------------------------------------------------------------------- subprocess probes (may hang or crash)
+PROBE = r'''
+import sys, json, math
+sys.path.insert(0, %(scratch)r)
+import warnings; warnings.filterwarnings("ignore")
+import rebound
+job = json.loads(sys.argv[1])
+sim = rebound.Simulation()
+sim.integrator = job["integrator"]
+sim.add(m=1.0); sim.add(m=1e-3, a=1.0, e=job.get("e", 0.05)); 
+if job.get("third"): sim.add(m=1e-3, a=1.6, e=0.3, f=2.0)
+sim.move_to_com()
+sim.t = job["t0"]; sim.dt = job["dt"]
+beats = []
+def hb(sp):
+    beats.append(sp.contents.t)
+    if len(beats) > job.get("cap", 10**9): rebound.clibrebound.reb_simulation_stop(sp)
+sim.heartbeat = hb
+st = "ok"
+try:
+    sim.integrate(job["tmax"], exact_finish_time=job["exact"])
+except Exception as e:
+    st = type(e).__name__
+print(json.dumps(dict(t=sim.t, dt=sim.dt, steps=sim.steps_done, status=st, nbeats=len(beats),
+                      mono=all((b - a) * math.copysign(1, job["tmax"] - job["t0"]) >= 0 for a, b in zip(beats, beats[1:])))))
+'''
+
+
+def probe(scratch, job, timeout=20):
+    try:
+        p = subprocess.run([sys.executable, "-c", PROBE % dict(scratch=scratch), json.dumps(job)], capture_output=True, text=True,
+                           timeout=timeout)
+    except subprocess.TimeoutExpired:
+        return {"outcome": "timeout"}
+    if p.returncode != 0:
+        return {"outcome": "crash", "rc": p.returncode, "stderr": p.stderr[-300:]}
+    try:
+        return dict(json.loads(p.stdout.strip().splitlines()[-1]), outcome="ok")
+    except Exception:
+        return {"outcome": "garbled", "stdout": p.stdout[-300:]}
+
+
+# ----------------------------------------------------------------------------- the check
+def run(c):
+    d = build()
+    rebound = use_scratch_rebound(d)
+    H = Harness(rebound)
+    thorough = c.thorough
+
+    # ---- translator: status enum, Python dispatch table, per-integrator time bookkeeping
+    text, info = extract_c08.generate(REPO)
+    write_if_changed(os.path.join(LEAN, "RV", "Gen", "C08Status.lean"), text)
+    c.cov["extracted"] = {"status_enumerators": len(info["enum"]), "python_branches": len(info["table"]),
+                          "python_irregularities": info["problems"],
+                          "step_kinds": {k: v[0] for k, v in info["kinds"].items()}}
+    if len(info["enum"]) != extract_c08.EXPECT_STATUS_COUNT:
+        c.corr_break("enum REB_STATUS: extracted %d enumerators, expected %d" % (len(info["enum"]), extract_c08.EXPECT_STATUS_COUNT))
+    if len(info["table"]) != extract_c08.EXPECT_PY_BRANCHES or info["problems"]:
+        c.corr_break("Simulation.integrate dispatch: %d branches, irregularities %s" % (len(info["table"]), info["problems"]))
+    for k, (kind, sig) in info["kinds"].items():
+        if kind is not None and kind != KIND[k]:
+            c.corr_break("time bookkeeping of integrator %s is '%s' in the source, model runs it as '%s'" % (k, kind, KIND[k]), list(sig))
+    c.cov["step_kinds_unrecognised"] = [k for k, v in info["kinds"].items() if v[0] is None]
+
+    c.prove(["RV.Props.C08"])
+    exe = lean_exe("drv_c08")
+    consts = run_driver(exe, ["consts"])[0].split()
+    if consts != [d2h(1e-12), d2h(1e-200)]:
+        c.corr_break("literals 1e-12 / 1e-200 of the model differ from the C literals", consts)
+
+    c.cov["rule"] = (
+        "tie: for each of the 11 integrators, (t0, dt, tmax) triples aimed at the last-step logic (tmax = t0 + k*dt +- j ulp, dt larger than "
+        "the interval, tmax = 0, tmax = t0, dt pointing away from the target, |t| up to 1e15 with dt of a few ulp(t), random), split into 1-6 "
+        "successive reb_simulation_integrate calls with exact_finish_time 0/1/2; every heartbeat's (t, dt, dt_last_done, status) and the final "
+        "(t, dt, dt_last_done, steps_done, status) are compared bitwise with the Lean model run on doubles (adaptive integrators: the model consumes "
+        "the observed dt_done / dt_new per step and re-derives everything else). Event scenes: user stop, error message, SIGINT flag, particle "
+        "removal at a chosen boundary, N=0 from the start, tmax=inf; exit-condition scenes: straight-line particles crossing exit_max_distance / "
+        "exit_min_distance / touching (halt resolver), conditions recomputed in Python at every heartbeat. distinct_nontrivial = distinct "
+        "(integrator, family, exact_finish_time, number of calls, steps>0).  search: the contract clauses asserted on the same real runs with "
+        "Fraction step counts, split-vs-single bitwise trajectories, status = first firing boundary, Python exception classes, and "
+        "subprocess probes (TRACE backwards, absorbed step t+dt==t).")
+    c.cov["trusted_base"] = ["Lean 4.33 kernel", "Mathlib order/field lemmas, linarith/nlinarith (kernel-checked)",
+                             "differential tie drv_c08 vs compiled rebound.c / integrator*.c on generated inputs",
+                             "ctypes Simulation layout (C18)", "Python ast / regex extraction of the finite tables"]
+    c.assumptions += [
+        "theorems are about exact (ordered-field) time arithmetic; that IEEE accumulation of t += dt lands inside the 1e-12 window is established "
+        "only on the generated triples (tie + search)",
+        "exit conditions enter the model as per-boundary flags; that the flags are what rebound.c computes from the particles is checked by "
+        "recomputing them in Python at every heartbeat of the exit-condition scenes",
+        "the PAUSED/SCREENSHOT wait loop and the SINGLE_STEP countdown are modelled (outcome `blocked`) but not tied: they need a second thread",
+        "MPI, OPENGL, SERVER mutex and simulationarchive heartbeat branches of the loop are not modelled (no effect on t, dt, status)"]
+
+    lines, expect, meta = [], [], []
+    fails = []           # (key, what, replay)
+    worst = {}
+    hist_steps = {}
+    fam_hist = {}
+
+    def record(integ, rec, tag, is_bs=False):
+        lines.append(model_line(KIND[integ], rec, is_bs=is_bs, n_odes=rec["n_odes"]))
+        expect.append(expected_answer(rec))
+        meta.append((integ, tag, rec))
+        nst = rec["post"][4] - rec["pre"][4]
+        b = "0" if nst == 0 else ("1" if nst == 1 else ("2-9" if nst < 10 else ("10-99" if nst < 100 else "100+")))
+        hist_steps[b] = hist_steps.get(b, 0) + 1
+
+    # ------------------------------------------------------------------ A: time logic, all integrators
+    nA = 60 if thorough else 9
+    for integ in KIND:
+        for rep in range(nA):
+            rng = c.rng.fork()
+            t0, dt, tmax, fam = gen_triple(rng)
+            ncalls = rng.choice([1, 1, 1, 2, 3, 4, 5, 6])
+            exact = rng.choice([0, 1, 1, 1, 0, 2]) if ncalls == 1 else rng.choice([0, 1])
+            sim = H.make_sim(integ, t0, dt, rng)
+            targets = partition(rng, t0, tmax, ncalls)
+            udt = abs(dt)
+            anysteps = False
+            for tgt in targets:
+                if integ == "trace" and tgt < sim.t:
+                    break                      # TRACE backwards: F10, probed in a subprocess below
+                rec = H.call(sim, tgt, exact)
+                record(integ, rec, fam, is_bs=(integ == "bs"))
+                check_contract(c, integ, rec, udt, fails, worst)
+                anysteps = anysteps or rec["post"][4] > rec["pre"][4]
+                if rec["capped"]:
+                    break
+            c.count((integ, fam, exact, ncalls, anysteps), nontrivial=anysteps)
+            fam_hist[fam] = fam_hist.get(fam, 0) + 1
+            if rep < 1 and integ in ("whfast", "ias15"):
+                c.sample({"integrator": integ, "t0": t0, "dt": dt, "targets": targets, "exact_finish_time": exact,
+                          "end": [sim.t, sim.dt, sim.dt_last_done, sim.steps_done]})
+
+    # ------------------------------------------------------------------ B: events at chosen boundaries
+    nB = 40 if thorough else 8
+    for integ in ["none", "leapfrog", "whfast", "ias15", "bs", "saba", "mercurius", "janus"]:
+        for rep in range(nB):
+            rng = c.rng.fork()
+            dt = rng.choice([0.1, 0.05, 0.3])
+            sim = H.make_sim(integ, 0.0, dt, rng)
+            ev_kind = rng.choice(["user", "err", "sigint", "empty", "empty0", "inf", "user+err", "sigint+user", "empty+user"])
+            kb = rng.randint(0, 6)
+            tmax = rng.choice([1.0, 0.95, -1.0, 2.0])
+            exact = rng.choice([0, 1])
+            events = {}
+            if ev_kind == "empty0":
+                H.clib.reb_simulation_remove_all_particles(ctypes.byref(sim))
+            elif ev_kind == "inf":
+                tmax = math.inf
+                events = {kb + 1: {"user"}}
+            else:
+                events = {kb: set(ev_kind.split("+"))}
+            rec = H.call(sim, tmax, exact, events=events)
+            H.sigint.value = 0
+            record(integ, rec, "event:" + ev_kind, is_bs=(integ == "bs"))
+            k, st = first_firing(rec, is_bs=(integ == "bs"))
+            if st is None:
+                st = 0
+            if rec["ret"] != st or (k is not None and len(rec["beats"]) != k + 1):
+                fails.append(("status-first-boundary", "returned status is not that of the first boundary at which an exit condition holds",
+                              dict(integrator=integ, event=ev_kind, boundary=kb, tmax=tmax, exact_finish_time=exact, returned=rec["ret"],
+                                   expected=st, heartbeats=len(rec["beats"]), expected_heartbeats=(k + 1 if k is not None else None))))
+            c.count((integ, ev_kind, exact, min(kb, 3)))
+            # a second call after the event must behave like a fresh call
+            if ev_kind in ("user", "sigint", "err") and rng.chance(0.5):
+                rec2 = H.call(sim, sim.t + 0.35, exact)
+                record(integ, rec2, "after:" + ev_kind, is_bs=(integ == "bs"))
+                check_contract(c, integ, rec2, abs(rec2["pre"][1]), fails, worst)
+
+    # ------------------------------------------------------------------ C: exit conditions from particle positions
+    nC = 60 if thorough else 10
+    scene_hist = {}
+    for integ in ["leapfrog", "whfast", "ias15", "saba", "eos", "none", "sei"]:
+        for rep in range(nC):
+            rng = c.rng.fork()
+            if integ == "none":
+                continue_none = True
+            sim, conds, kind = make_scene(H, rng, integ)
+            if integ == "ias15":
+                sim.ri_ias15.epsilon = 0          # straight lines: keep the step fixed so that crossings happen at boundaries
+            tmax = rng.uniform(2.0, 6.0)
+            exact = rng.choice([0, 1])
+            rec = H.call(sim, tmax, exact, conds=conds)
+            record(integ, rec, "scene:" + kind)
+            k, st = first_firing(rec)
+            want = st if st is not None else 0
+            scene_hist[STATUS_NAMES.get(rec["ret"], str(rec["ret"]))] = scene_hist.get(STATUS_NAMES.get(rec["ret"], str(rec["ret"])), 0) + 1
+            if rec["ret"] != want or (k is not None and len(rec["beats"]) != k + 1):
+                fails.append(("status-first-boundary", "returned status is not that of the first boundary at which an exit condition holds",
+                              dict(integrator=integ, scene=kind, tmax=tmax, exact_finish_time=exact, dt=rec["pre"][1], returned=rec["ret"],
+                                   expected=want, heartbeats=len(rec["beats"]), expected_heartbeats=(k + 1 if k is not None else None),
+                                   exit_max_distance=sim.exit_max_distance, exit_min_distance=sim.exit_min_distance)))
+            if rec["ret"] == 0:
+                check_contract(c, integ, rec, abs(rec["pre"][1]), fails, worst)
+            else:
+                # dt must be restored also when the call ends early
+                if exact == 1 and d2h(abs(rec["post"][1])) != d2h(abs(rec["pre"][1])) and integ != "ias15":
+                    fails.append(("dt-restore-early-exit", "dt not restored when integrate ended early", dict(integrator=integ, scene=kind)))
+            c.count((integ, kind, exact, rec["ret"]), nontrivial=(rec["ret"] != 0 or kind == "none"))
+    c.cov["scene_status_histogram"] = scene_hist
+
+    # ------------------------------------------------------------------ model vs implementation
+    c.log("running %d integrate calls through drv_c08" % len(lines))
+    got = run_driver(exe, lines)
+    ndis, first = 0, None
+    adaptive_pred = {"checked": 0, "shrunk_inside_step": 0}
+    if len(got) != len(lines):
+        c.corr_break("driver returned %d lines for %d calls" % (len(got), len(lines)))
+    else:
+        for g, e, (integ, tag, rec), l in zip(got, expect, meta, lines):
+            pa = parse_answer(g)
+            if pa is None or pa[0] != e:
+                ndis += 1
+                if first is None:
+                    a = pa[0] if pa else [g]
+                    idx = next((i for i, (x, y) in enumerate(zip(a, e)) if x != y), min(len(a), len(e)))
+                    first = {"integrator": integ, "case": tag, "tmax": rec["tmax"], "exact_finish_time": rec["exact"], "pre": rec["pre"],
+                             "first_difference_at_token": idx, "model": a[max(0, idx - 3): idx + 4], "impl": e[max(0, idx - 3): idx + 4],
+                             "model_head": a[:7], "impl_head": e[:7], "line": l[:300]}
+                continue
+            # hypothesis of the adaptive theorem, observed: an accepted step advances by dt_done with 0 < |dt_done| <= |dt on entry|
+            if KIND[integ] == "adaptive":
+                for dt0h, b_prev, b in zip(pa[2], rec["beats"], rec["beats"][1:]):
+                    dt0, done = h2d(dt0h), b[2]
+                    if d2h(b[0]) == d2h(b_prev[0]):
+                        continue
+                    adaptive_pred["checked"] += 1
+                    if d2h(done) != d2h(dt0):
+                        adaptive_pred["shrunk_inside_step"] += 1
+                    if not (done * dt0 > 0 and abs(done) <= abs(dt0)) or (integ == "bs" and d2h(done) != d2h(dt0)):
+                        fails.append(("adaptive-step-predicate", "an accepted adaptive step advanced by more than / against the dt it was called with",
+                                      dict(integrator=integ, dt_in=dt0, dt_done=done, tmax=rec["tmax"])))
+    c.cov["model_calls_compared"] = len(lines)
+    c.cov["disagreements"] = ndis
+    c.cov["steps_per_call_histogram"] = hist_steps
+    c.cov["family_histogram"] = fam_hist
+    c.cov["adaptive_step_predicate"] = adaptive_pred
+    if ndis:
+        c.corr_break("%d of %d integrate calls differ between model and implementation; first: %s %s" %
+                     (ndis, len(lines), first["integrator"], first["case"]), first)
+
+    search_more(c, H, d, fails, worst)
+    c.cov["worst_measured"] = {k: (float("%.3g" % v) if isinstance(v, float) else v) for k, v in worst.items()}
+    seen = set()
+    for key, what, rep in fails:
+        if key in seen:
+            continue
+        seen.add(key)
+        c.violation(key, what, rep)
+
+
+def search_more(c, H, scratch, fails, worst):
+    rebound = H.rebound
+    thorough = c.thorough
+
+    # ------------------------------------------------------------------ split integration == single call (fixed step, no exact finish)
+    nS = 40 if thorough else 8
+    split_stats = {"compared": 0, "reversing_partitions": 0}
+    for integ in FIXED:
+        for rep in range(nS):
+            rng = c.rng.fork()
+            t0 = rng.choice([0.0, rng.uniform(-3, 3)])
+            mag = rng.choice([0.1, 0.25, 0.01 * rng.randint(1, 40), rng.uniform(0.05, 1.0)])
+            direction = 1 if integ == "trace" else rng.choice([1, -1])
+            dt = mag * rng.choice([1, -1]) if integ != "trace" else mag
+            span = mag * rng.uniform(0.3, 25)
+            tmax = t0 + direction * span
+            ncalls = rng.randint(2, 6)
+            targets = partition(rng, t0, tmax, ncalls)
+            if rng.chance(0.3):     # targets exactly on step boundaries
+                targets = [t0 + direction * mag * round(abs(tg - t0) / mag) for tg in targets[:-1]] + [tmax]
+            seed = rng.next()
+            simA = H.make_sim(integ, t0, dt, SplitMix(seed))
+            simB = H.make_sim(integ, t0, dt, SplitMix(seed))
+            reversed_ = False
+            for tg in targets:
+                if (tg - simA.t) * direction < 0:
+                    reversed_ = True
+                if integ == "trace" and tg < simA.t:
+                    break
+                simA.integrate(tg, exact_finish_time=0)
+            else:
+                simB.integrate(tmax, exact_finish_time=0)
+                same = state_bytes(simA) == state_bytes(simB) and simA.steps_done == simB.steps_done
+                split_stats["compared"] += 1
+                c.count(("split", integ, ncalls, reversed_))
+                if not same:
+                    rep_ = dict(integrator=integ, t0=t0, dt=dt, targets=targets, t_split=simA.t, t_single=simB.t,
+                                steps_split=simA.steps_done, steps_single=simB.steps_done, dt_after_split=simA.dt)
+                    if reversed_:
+                        split_stats["reversing_partitions"] += 1
+                        fails.append(("F18:split-overshoot-reverses",
+                                      "integrate(t1); integrate(t2) with exact_finish_time=0 and a step that carries the first call past t2 "
+                                      "turns the second call into a backward integration (ends before t2, dt sign flipped)", rep_))
+                    else:
+                        fails.append(("split-trajectory", "split integration (exact_finish_time=0) differs from the single call", rep_))
+            if reversed_ and integ == "trace":
+                split_stats["reversing_partitions"] += 1
+    c.cov["split_vs_single"] = split_stats
+
+    # ------------------------------------------------------------------ Python layer: exception class per status
+    exc_seen = {}
+    for integ in ["leapfrog", "whfast", "ias15"]:
+        for want, setup in ((1, "err"), (2, "empty"), (3, "encounter"), (4, "escape"), (5, "user"), (6, "sigint"), (7, "collision"), (0, "none")):
+            rng = c.rng.fork()
+            sim = H.make_sim(integ, 0.0, 0.1, rng, physics="free")
+            sim.add(m=0.0, x=0.0)
+            sim.add(m=0.0, x=-1.0, vx=1.0, r=0.01)
+            if setup == "encounter":
+                sim.exit_min_distance = 0.2
+            if setup == "escape":
+                sim.exit_max_distance = 0.5
+            if setup == "collision":
+                sim.collision = "direct"; sim.collision_resolve = "halt"; sim.particles[0].r = 0.1
+            if integ == "ias15":
+                sim.ri_ias15.epsilon = 0
+            nb = [0]
+
+            def hb(sp, setup=setup, nb=nb):
+                nb[0] += 1
+                if nb[0] == 3:
+                    if setup == "err": H.clib.reb_simulation_error(sp, b"C08 injected error")
+                    if setup == "empty": H.clib.reb_simulation_remove_all_particles(sp)
+                    if setup == "user": H.clib.reb_simulation_stop(sp)
+                    if setup == "sigint": H.sigint.value = 1
+            sim.heartbeat = hb
+            got = None
+            try:
+                sim.integrate(5.0)
+            except BaseException as e:      # KeyboardInterrupt is not an Exception
+                got = type(e).__name__
+            H.sigint.value = 0
+            try:
+                sim.process_messages()
+            except RuntimeError:
+                pass
+            exc_seen[STATUS_NAMES[want]] = got
+            c.count(("pyexc", integ, want))
+            # status 1 with a waiting error message surfaces as the RuntimeError carrying that message (process_messages)
+            okexc = (got == PY_EXC[want]) or (want == 1 and got == "RuntimeError")
+            if sim._status != want or not okexc:
+                fails.append(("python-exception", "Simulation.integrate raised %s for status %s (expected %s)" % (got, sim._status, PY_EXC[want]),
+                              dict(integrator=integ, setup=setup, status=sim._status, raised=got, expected_status=want,
+                                   expected_exception=PY_EXC[want])))
+    c.cov["python_exception_per_status"] = exc_seen
+
+    # ------------------------------------------------------------------ subprocess probes
+    probes = {}
+    # TRACE with a negative step (F10): does the contract itself trip?
+    nT = 6 if thorough else 3
+    trace_bad = []
+    for i in range(nT):
+        rng = c.rng.fork()
+        job = dict(integrator="trace", t0=0.0, dt=rng.choice([0.01, 0.05]), tmax=-rng.uniform(0.5, 3.0), exact=rng.choice([0, 1]),
+                   third=(i % 2 == 1), e=0.05, cap=5000)
+        r = probe(scratch, job)
+        c.count(("probe", "trace-backward", i))
+        ok = r["outcome"] == "ok" and r["status"] == "ok" and r.get("mono") and \
+            (abs(r["t"] - job["tmax"]) <= 1e-12 * abs(job["tmax"]) if job["exact"] == 1 else r["t"] <= job["tmax"]) and r["dt"] < 0
+        if not ok:
+            trace_bad.append(dict(job=job, result=r))
+    probes["trace_backward"] = {"runs": nT, "contract_trips": len(trace_bad)}
+    if trace_bad:
+        fails.append(("F10:trace-negative-dt", "TRACE integrated backwards in time breaks the integrate() contract (crash / wrong end time)",
+                      trace_bad[0]))
+    # absorbed step: |t| so large that t + dt == t
+    nH = 4 if thorough else 2
+    hang = []
+    for i in range(nH):
+        rng = c.rng.fork()
+        integ = rng.choice(["leapfrog", "whfast", "none", "saba"])
+        t0 = rng.choice([1, -1]) * 10.0 ** rng.randint(15, 17)
+        dt = math.ulp(t0) / rng.choice([8, 64, 1024])
+        job = dict(integrator=integ, t0=t0, dt=dt, tmax=t0 + math.copysign(4 * math.ulp(t0), rng.choice([1, -1])), exact=rng.choice([0, 1]))
+        r = probe(scratch, job, timeout=6)
+        c.count(("probe", "absorbed", integ))
+        if r["outcome"] != "ok" or r.get("status") != "ok":
+            hang.append(dict(job=job, result=r))
+    probes["absorbed_step"] = {"runs": nH, "hangs_or_errors": len(hang)}
+    if hang:
+        fails.append(("F19:absorbed-step-hang", "integrate() never returns when |t| is so large that t + dt == t in double precision "
+                      "(the loop makes no progress and has no guard)", hang[0]))
+    c.cov["subprocess_probes"] = probes
+
+
+if __name__ == "__main__":
+    main("C08", run)
